@@ -651,20 +651,23 @@ def fprintfMemory (fixed : Bool) (s : OStream) (t : List Nat) : OStream × Int :
   let (s', n) := s.write t
   (s', if fixed ∧ n ≠ t.length then -1 else (n : Int))
 
+/-- `DOPRNT_FORMAT`: literal text goes through `vfprintf` (`doprnt_format_t`), which reports −1 when the
+    write fails -/
+def fprintfFormat (s : OStream) (t : List Nat) : OStream × Int :=
+  let (s', n) := s.write t
+  (s', if n = t.length then (n : Int) else -1)
+
 /-- FAITHFUL model of the same call through `__gmp_doprnt` / `__gmp_doprnt_integer`
     (printf/doprnt.c, doprnti.c) with `__gmp_fprintf_funs`: literal text goes through `vfprintf`
     (reports -1), padding and sign through `gmp_fprintf_reps`, digits through
     `gmp_fprintf_memory`; `DOPRNT_ACCUMULATE` bails out with -1 on the first -1. -/
 def gmpFprintfModel (fixed : Bool) (s : OStream) (pre : List Nat) (width base : Nat) (x : Int)
     (post : List Nat) : Int × OStream :=
-  let fmt (s : OStream) (t : List Nat) : OStream × Int :=
-    let (s', n) := s.write t
-    (s', if n = t.length then (n : Int) else -1)
   let digs := if x = 0 then [48] else magText base base x.natAbs
   let signlen := if x < 0 then 1 else 0
   let justlen : Int := (width : Int) - (digs.length + signlen)
   -- FLUSH (): DOPRNT_FORMAT (last_fmt) only when there is text before the conversion
-  let (s1, r1) := if pre.isEmpty then (s, (0 : Int)) else fmt s pre
+  let (s1, r1) := if pre.isEmpty then (s, (0 : Int)) else fprintfFormat s pre
   if r1 = -1 then (-1, s1) else
   let (s2, r2) := if justlen > 0 then fprintfReps fixed s1 32 justlen.toNat else (s1, 0)
   if r2 = -1 then (-1, s2) else
@@ -672,7 +675,7 @@ def gmpFprintfModel (fixed : Bool) (s : OStream) (pre : List Nat) (width base : 
   if r3 = -1 then (-1, s3) else
   let (s4, r4) := fprintfMemory fixed s3 digs       -- DOPRNT_MEMORY (s, slen)
   if r4 = -1 then (-1, s4) else
-  let (s5, r5) := if post.isEmpty then (s4, (0 : Int)) else fmt s4 post
+  let (s5, r5) := if post.isEmpty then (s4, (0 : Int)) else fprintfFormat s4 post
   if r5 = -1 then (-1, s5) else
   (r1 + r2 + r3 + r4 + r5, s5)
 
